@@ -340,6 +340,21 @@ def l3_witness(pid, fails, repo):
     out['schema'] = open(path, encoding='utf-8').read()[:6000]
     out['expectation'] = f.message
     out['found'] = bool(shown) or f.obligation.startswith('index:')
+    if not shown and f.obligation.startswith('shape:') and names:
+        # the expected item is ABSENT from the freshly emitted file: that absence is the replayed observation
+        want = names[-1]
+        if not any(c.kind in ('struct', 'type') and c.name == want for it in em.items for c in ([it] + list(it.children))):
+            out['found'] = True
+            out['observation'] = f'no struct or alias named {want} in the file emitted for {prog}'
+    if f.obligation.startswith('decl:'):
+        try:
+            from .l3 import model as _M
+            again = {lab: (ok, det) for lab, ok, det in l3run.ns_decl_checks(em, _M.load(path))}
+            if f.obligation in again and not again[f.obligation][0]:
+                out['found'] = True
+                out['observation'] = again[f.obligation][1]
+        except Exception as e:      # replay aid only
+            out['error'] = repr(e)
     out['input'] = {'schema_file': prog, 'disagreeing_item': f.obligation}
     return out
 
